@@ -38,6 +38,17 @@ def Call.tied (cfg : Cfg) : Call → Bool
     | some sh => decide (gmExitSwapOut (cfg id) p dout amt sh = some sh)
     | none => true
 
+/-- the part of `tied` that the LEDGER theorems need: only the all-asset join, the exit and the
+`ExitSwapExactAmountOut` results must be Model/Gamm's; swap, estimate and single-asset-join results may be anything. -/
+def Call.tiedLP (cfg : Cfg) : Call → Bool
+  | .joinNoSwap p id needed m => (Call.joinNoSwap p id needed m).tied cfg
+  | .exit p id sh m => (Call.exit p id sh m).tied cfg
+  | .exitSwapOut p id dout amt m => (Call.exitSwapOut p id dout amt m).tied cfg
+  | _ => true
+
+theorem Call.tiedLP_of_tied {cfg : Cfg} {c : Call} (h : c.tied cfg = true) : c.tiedLP cfg = true := by
+  cases c <;> first | exact h | rfl
+
 /-- finding F13: a balancer `SwapOutAmtGivenIn` answered with EXACTLY the whole out-reserve of the record. -/
 def Call.entireReserve : Call → Bool
   | .swapIn p _ _ _ dout (some out) => decide (p.kind = .balancer) && decide (out = p.res dout)
